@@ -847,16 +847,27 @@ func crossKeyProbe(ctx *core.Ctx, bin string) {
 		radius   string
 		move     [3]string // id, lat, lon in the fenced collection
 		expected []string
+		raw      [][]string // further neighbours: object part of SET <roam collection> <id> ..., id first
+		rawWant  []string   // ids among raw that are within the radius under any reading of "distance"
 	}
 	cases := []tcase{
-		{"same-id-in-other-collection", [][3]string{{"a", "33", "-115"}, {"b", "33.001", "-115"}}, "1000", [3]string{"a", "33", "-115.001"}, []string{"a", "b"}},
-		{"radius-reaches-pole", [][3]string{{"n1", "6", "10"}, {"n2", "-40", "60"}}, "9451568.764787493", [3]string{"m", "5", "10"}, []string{"n1", "n2"}},
-		{"radius-reaches-pole-2", [][3]string{{"n1", "46", "10"}, {"n2", "10", "60"}}, "5003771.699005143", [3]string{"m", "45", "10"}, []string{"n1", "n2"}},
+		{"same-id-in-other-collection", [][3]string{{"a", "33", "-115"}, {"b", "33.001", "-115"}}, "1000", [3]string{"a", "33", "-115.001"}, []string{"a", "b"}, nil, nil},
+		{"radius-reaches-pole", [][3]string{{"n1", "6", "10"}, {"n2", "-40", "60"}}, "9451568.764787493", [3]string{"m", "5", "10"}, []string{"n1", "n2"}, nil, nil},
+		{"radius-reaches-pole-2", [][3]string{{"n1", "46", "10"}, {"n2", "10", "60"}}, "5003771.699005143", [3]string{"m", "45", "10"}, []string{"n1", "n2"}, nil, nil},
+		// neighbours that are extended objects much larger than the radius, the moved point well inside them and 111 m from their centre
+		{"extended-neighbours", [][3]string{{"p", "33.0005", "-115"}}, "1000", [3]string{"m", "33.001", "-115"}, []string{"p"},
+			[][]string{{"rect", "BOUNDS", "32", "-116", "34", "-114"}, {"poly", "OBJECT", `{"type":"Polygon","coordinates":[[[-117,31],[-113,31],[-113,35],[-117,35],[-117,31]]]}`},
+				{"line", "OBJECT", `{"type":"LineString","coordinates":[[-118,33],[-112,33]]}`}, {"farrect", "BOUNDS", "40", "-100", "42", "-98"}}, []string{"rect", "poly", "line"}},
+		// "at most the radius": co-located objects and a radius of zero
+		{"radius-zero-colocated", [][3]string{{"same", "10", "20"}, {"other", "10.01", "20"}}, "0", [3]string{"m", "10", "20"}, []string{"same"}, nil, []string{"same"}},
 	}
 	for i, tc := range cases {
 		fkey, okey, ch := fmt.Sprintf("xf%d", i), fmt.Sprintf("xo%d", i), fmt.Sprintf("xch%d", i)
 		for _, o := range tc.others {
 			c.Do("SET", okey, o[0], "POINT", o[1], o[2])
+		}
+		for _, o := range tc.raw {
+			c.Do(append([]string{"SET", okey, o[0]}, o[1:]...)...)
 		}
 		if r, err := c.Do("SETCHAN", ch, "NEARBY", fkey, "FENCE", "ROAM", okey, "*", tc.radius); err != nil || r.IsErr() {
 			ctx.Inconclusive("cross-key probe: SETCHAN failed")
@@ -902,6 +913,15 @@ func crossKeyProbe(ctx *core.Ctx, bin string) {
 			if d := notif.Haversine(mlat, mlon, la, lo); d < rad*(1-band) && !got[o[0]] {
 				missing = append(missing, o[0])
 			}
+		}
+		for _, id := range tc.rawWant {
+			if !got[id] {
+				missing = append(missing, id)
+			}
+		}
+		if got["farrect"] || got["other"] {
+			ctx.Violation("roam:nearby-extra:"+tc.name, fmt.Sprintf("fence [NEARBY %s FENCE ROAM %s * %s], `SET %s %s POINT %s %s`: a nearby entry for an object far outside the radius (received for %v)", fkey, okey, tc.radius, fkey, tc.move[0], tc.move[1], tc.move[2], keysOf(got)), map[string]any{"case": tc.name})
+			return
 		}
 		if len(missing) > 0 {
 			ctx.Violation("roam:nearby-missing:"+tc.name, fmt.Sprintf("fence [NEARBY %s FENCE ROAM %s * %s], neighbours %v, `SET %s %s POINT %s %s`: no `nearby` entry for %v (received for %v); all of them are within the radius by haversine", fkey, okey, tc.radius, tc.others, fkey, tc.move[0], tc.move[1], tc.move[2], missing, keysOf(got)),
